@@ -143,6 +143,9 @@ func (Engine) Generate(r *simcore.RNG, tier string, idx int) *simcore.Plan {
 		p.Config["wl"] = 1 // account 0 may create pools without the creation fee
 	}
 	faults := idx%2 == 1
+	if idx%4 == 3 {
+		p.Config["spec"] = 60 + int64(idx/4%5)*60 // permille of blocks first executed speculatively on a discarded branch (simchain.Node.Spec)
+	}
 	if faults {
 		p.Config["faults"] = 1
 	}
@@ -585,6 +588,12 @@ func (Engine) Execute(run *simcore.Run) {
 		pg.Params.TakerFeeParams.AdminAddresses = []string{admin}
 		gs[pmtypes.ModuleName] = cdc.MustMarshalJSON(&pg)
 	}})
+	n.Spec = run.Plan.Cfg("spec", 0)
+	defer func() {
+		for i := 0; i < n.Specs; i++ {
+			run.Fault("speculative-block-discarded")
+		}
+	}()
 	w := &world{run: run, n: n, accts: accts, denoms: denoms, supply0: map[string]osmomath.Int{}, white: map[int]bool{},
 		takerAddr: authtypes.NewModuleAddress(txfeestypes.TakerFeeCollectorName),
 		distrAddr: authtypes.NewModuleAddress(distrtypes.ModuleName)}
